@@ -2,7 +2,8 @@
    non-vacuity Examples at the end. *)
 From Coq Require Import List ZArith Bool Lia.
 From Verif Require Import C16.Model C16.Spec C16.ModelArb C16.SpecArb
-  C16.Proofs_Evict C16.Proofs_Limiter C16.Proofs_Seq C16.Proofs_Arb C16.Proofs_Arb2 C16.Proofs_Arb3 C16.Proofs_Arb4 C16.Proofs_Arb5 C16.Proofs_Trace.
+  C16.Proofs_Evict C16.Proofs_Limiter C16.Proofs_Seq C16.Proofs_Arb C16.Proofs_Arb2 C16.Proofs_Arb3 C16.Proofs_Arb4 C16.Proofs_Arb5 C16.Proofs_Trace
+  C16.ModelDE C16.SpecDE C16.Proofs_DE C16.Proofs_DETrace C16.ModelBudget C16.SpecBudget C16.Proofs_Budget.
 Import ListNotations.
 Open Scope Z_scope.
 
@@ -196,6 +197,96 @@ Theorem c16_limiter_conc_refuted :
 Proof. exact lim_conc_refuted. Qed.
 Print Assumptions c16_limiter_conc_refuted.
 
+(* ================= the production stack: evictorProxy + EvictionLimiter around the DefaultEvictor's
+   own PodEvictor, over several descheduling cycles (Reset) ================= *)
+
+(* the plugin's PodEvictor (built by defaultevictor.New: not dry-run, no caps): for EVERY list of
+   operations - any interleaving of any number of threads, cycle resets anywhere - its counters
+   equal the evictions issued and not failed whenever no thread sits between reserve and the API
+   call or between a failed call and unreserve *)
+Theorem c16_stack_inner_counters_exact : forall dry c reqs ops,
+  let s := d_in (de_run dry c reqs (init_dst (length reqs)) ops) in
+  settled s ->
+  (forall k, k <> 0 -> cn s k = issued_live reqs (on_node k) s) /\ cn s 0 = 0
+  /\ (forall k, cs s k = issued_live reqs (on_ns k) s)
+  /\ ct s = issued_live reqs any_req s.
+Proof. exact de_inner_counters_exact. Qed.
+Print Assumptions c16_stack_inner_counters_exact.
+
+(* in every descheduling cycle, when nobody enters AllowEvict and no cycle is reset while an eviction is
+   in flight: the evictions admitted in the cycle and not failed stay within the three caps, and the
+   limiter's counters are the evictions completed in the cycle *)
+Theorem c16_stack_disciplined_caps : forall dry c reqs ops,
+  caps_nonneg c ->
+  de_disciplined dry c reqs (init_dst (length reqs)) ops ->
+  let s := d_out (de_run dry c reqs (init_dst (length reqs)) ops) in
+  (forall m k, cap_node c = Some m -> k <> 0 ->
+     tsum (w_of false (on_node k) granted_pc) reqs (pcs s) <= m)
+  /\ (forall m k, cap_ns c = Some m -> tsum (w_of false (on_ns k) granted_pc) reqs (pcs s) <= m)
+  /\ (forall m, cap_total c = Some m -> tsum (w_of false any_req granted_pc) reqs (pcs s) <= m)
+  /\ (forall k, k <> 0 -> cn s k = tsum (w_of false (on_node k) doneok) reqs (pcs s))
+  /\ (forall k, cs s k = tsum (w_of false (on_ns k) doneok) reqs (pcs s))
+  /\ ct s = tsum (w_of false any_req doneok) reqs (pcs s).
+Proof. exact de_disciplined_caps. Qed.
+Print Assumptions c16_stack_disciplined_caps.
+
+(* the framework's dry-run: no operation list ever reaches the eviction API *)
+Theorem c16_stack_dry_no_call : forall c reqs ops,
+  calls (d_in (de_run true c reqs (init_dst (length reqs)) ops)) = [].
+Proof. exact de_dry_no_call. Qed.
+Print Assumptions c16_stack_dry_no_call.
+
+(* the decision procedure that bin/check evaluates on the implementation's observables of the stream
+   defaultevictor (caps per cycle, both layers' counters = evictions issued judged by their fate at the
+   API, refusal without side effect, dry-run silent, Filter / PreEvictionFilter / NodeLimitExceeded /
+   Reset touch nothing else, Evict's answer = the fate of the eviction; SpecDE.de_code) holds of the
+   model's own trace for EVERY disciplined case *)
+Theorem c16_stack_model_ok : forall e,
+  caps_nonneg (dc_caps e) ->
+  de_disciplined (dc_dry e) (dc_caps e) (dc_reqs e) (init_dst (length (dc_reqs e))) (dc_ops e) ->
+  de_code e (de_model_trace e) = 0.
+Proof. exact de_model_trace_ok. Qed.
+Print Assumptions c16_stack_model_ok.
+
+(* ================= the budget functions (util.go) ================= *)
+
+(* the definitions regenerated from the source answer every query as specified, hence the decision
+   procedure of the stream budget holds of the model for every list of queries *)
+Theorem c16_budget_model_is_spec : forall fn a b c, budget_query fn a b c = budget_spec fn a b c.
+Proof. exact budget_model_is_spec. Qed.
+Print Assumptions c16_budget_model_is_spec.
+
+Theorem c16_budget_check_model : forall qs, check_qs qs (run_qs qs) = 0.
+Proof. exact budget_check_model. Qed.
+Print Assumptions c16_budget_check_model.
+
+(* GetMaxUnavailable = GetMaxMigrating in closed form: the replica count caps a setting that is the
+   default table (nil), the integer (at least 1), or the percentage rounded down (at least 1) *)
+Theorem c16_budget_closed : forall r x, get_max r x = budget_closed r x.
+Proof. exact get_max_closed. Qed.
+Print Assumptions c16_budget_closed.
+
+Theorem c16_budget_bounds : forall r x,
+  get_max r x <= r /\ (1 <= r -> 0 <= snd x -> 1 <= get_max r x).
+Proof. exact budget_bounds. Qed.
+Print Assumptions c16_budget_bounds.
+
+Theorem c16_budget_percent : forall r v,
+  0 <= r -> 0 <= v -> get_max r (2, v) = Z.min r (Z.max 1 ((v * r) / 100)).
+Proof. exact budget_percent. Qed.
+Print Assumptions c16_budget_percent.
+
+Theorem c16_budget_default : forall r,
+  0 <= r ->
+  get_max r (0, 0) = if r <=? 3 then Z.min r 1 else if r <=? 10 then 2 else (10 * r) / 100.
+Proof. exact budget_default. Qed.
+Print Assumptions c16_budget_default.
+
+Theorem c16_cost_filter_iff : forall kind v,
+  filter_max_cost kind v = false <-> kind = 1 /\ v = int32_max.
+Proof. exact cost_filter_iff. Qed.
+Print Assumptions c16_cost_filter_iff.
+
 (* ================= non-vacuity ================= *)
 
 (* arbitration: global limit 1, two pods, two waiting jobs: the hypotheses hold, one job passes,
@@ -293,3 +384,41 @@ Example c16_ex_limiter :
 Proof.
   split; [apply disciplined_seq, quiet_init|vm_compute; reflexivity].
 Qed.
+
+(* the stack: total cap 1, three requests; two cycles.  The schedule is disciplined, the second request
+   of the first cycle is refused, the third is granted after the reset; the limiter then reports 1
+   (this cycle), the plugin's PodEvictor 2 (both cycles) *)
+Definition ex_dcase : dcase :=
+  mkDC false (mkDF false false false false) (mkCaps None None (Some 1)) 1 1
+       [mkReq 1 1 true; mkReq 1 1 true; mkReq 1 1 true]
+       [mkPA false false false false false false false false false false;
+        mkPA false false false false false false false false false false;
+        mkPA true false false false false false false false false false]
+       [DStep 0; DStep 0; DStep 1; DStep 1; DFilter 2; DReset; DStep 2; DStep 2]%nat.
+
+Example c16_ex_stack :
+  caps_nonneg (dc_caps ex_dcase)
+  /\ de_disciplined (dc_dry ex_dcase) (dc_caps ex_dcase) (dc_reqs ex_dcase) (init_dst 3) (dc_ops ex_dcase)
+  /\ map r_ret (de_model_trace ex_dcase) = [0; 2; 1; 0; 0; 0; 0; 2]
+  /\ map r_verdict (de_model_trace ex_dcase) = [-1; -1; -1; -1; 0; -1; -1; -1]
+  /\ ct (d_out (de_run false (dc_caps ex_dcase) (dc_reqs ex_dcase) (init_dst 3) (dc_ops ex_dcase))) = 1
+  /\ ct (d_in (de_run false (dc_caps ex_dcase) (dc_reqs ex_dcase) (init_dst 3) (dc_ops ex_dcase))) = 2.
+Proof.
+  split; [repeat split; cbn; intros m H; inversion H; lia|].
+  split; [|vm_compute; repeat split; reflexivity].
+  cbn [ex_dcase dc_dry dc_caps dc_reqs dc_ops de_disciplined].
+  repeat match goal with
+         | |- _ /\ _ => split
+         | |- True => exact I
+         | |- start_ok _ _ _ =>
+             let H1 := fresh in let H2 := fresh in
+             intros H1 H2; vm_compute in H1; first [discriminate H1 | vm_compute; reflexivity]
+         | |- nobody_in_flight _ _ => vm_compute; reflexivity
+         end.
+Qed.
+
+(* the budgets of a 25-replica workload: default 2 (10%), "30%" = 7, 40 = 25; none for 0 replicas *)
+Example c16_ex_budget :
+  get_max 25 (0, 0) = 2 /\ get_max 25 (2, 30) = 7 /\ get_max 25 (1, 40) = 25 /\ get_max 0 (1, 3) = 0
+  /\ get_max 3 (2, 10) = 1.
+Proof. vm_compute. repeat split. Qed.
